@@ -25,6 +25,12 @@ var nvPresets = [][]int{
 	{0, 1, 9, 0, 0, 0}, // fully honest-looking NEW_VIEW
 	{0, 0, 2, 0, 1, 0}, // consumer-invalid fresh block
 	{0, 1, 2, 0, 0, 0}, // consumer-invalid block under cover of a lock
+	{0, 4, 2, 0, 1, 0}, // own vote: genuine PREPARE signatures under a PREPREPARE reference for another (consumer-invalid) block, which is re-proposed
+	{0, 4, 2, 0, 0, 0},
+	{0, 4, 0, 0, 1, 0}, // ... for another consumer-valid block
+	{0, 4, 0, 0, 0, 1}, // ... genuine votes (with their proofs) kept, the adversary's vote first
+	{0, 4, 1, 0, 0, 1},
+	{0, 3, 0, 0, 0, 1},
 	{0, 2, 8, 0, 0, 0}, // several proofs among the votes, proposal = block of the lowest one
 	{3, 0, 8, 0, 0, 0},
 	{0, 1, 8, 0, 0, 0},
@@ -95,8 +101,8 @@ func drawByz(t *rapid.T, w *sim.World, o simOpts) *sim.ByzSpec {
 		p[1] = rapid.IntRange(0, 2).Draw(t, "rmode")
 	}
 	if strat == "nv" || strat == "vc" {
-		p[0] = rapid.IntRange(0, 3).Draw(t, "mode0")
-		p[1] = rapid.IntRange(0, 3).Draw(t, "mode1")
+		p[0] = rapid.IntRange(0, 4).Draw(t, "mode0")
+		p[1] = rapid.IntRange(0, 4).Draw(t, "mode1")
 		if strat == "nv" {
 			p[2] = rapid.SampledFrom([]int{0, 0, 1, 2, 3, 4, 5, 8, 9, 9, 9}).Draw(t, "proposal")
 			p[3] = rapid.SampledFrom([]int{0, 0, 0, 0, 1, 2, 3}).Draw(t, "ppmode")
